@@ -59,6 +59,9 @@ type matcherCompiler struct {
 	// All dots found during match compilation.
 	dots []token.Pos
 
+	// Names of the metavariables compiled so far, in order, with repeats.
+	metavars []string
+
 	patchStart, patchEnd token.Pos
 }
 
